@@ -69,3 +69,84 @@ def search(seeds=(0, 1, 2, 3, 7), norders=4):
 
 def count_cases():
     return 4 + 4
+
+
+# ---- a second run into the output directory of the first: stale output must not change the result
+RERUN = {
+    "media with a Fortran file, own exclude_dir": ({"src.f90": "module m\n  !! doc\n  integer :: a\nend module m\n", "media/example.f90": "module example\n  integer :: e\nend module example\n"},
+                                                  "src_dir: .\noutput_dir: ./doc\nmedia_dir: ./media\nexclude_dir: ./media\nincl_src: false\ngraph: false\n", None, "doc"),
+    "output directory given with -o": ({"src.f90": "module m\n  !! doc\n  integer :: a\nend module m\n"},
+                                       "src_dir: .\noutput_dir: ./doc\ngraph: false\n", {"output_dir": "out2"}, "out2"),
+}
+
+
+def _snapshot(root):
+    import hashlib
+    snap = {}
+    for d, _, ff in os.walk(root):
+        for f in ff:
+            p = os.path.join(d, f)
+            snap[os.path.relpath(p, root)] = hashlib.sha256(open(p, "rb").read()).hexdigest()[:16]
+    return snap
+
+
+def rerun_cases():
+    import shutil, tempfile
+    from bounded import site
+    for name, (files, meta, cargs, outname) in RERUN.items():
+        os.makedirs(realrun.TMPROOT, exist_ok=True)
+        sb = tempfile.mkdtemp(dir=realrun.TMPROOT)
+        try:
+            snaps = []
+            for i in (1, 2):
+                with site.site(files, meta, cargs=cargs, sandbox=sb) as (pd, status):
+                    if not status.startswith("ok"):
+                        return {"confirmed": True, "input": {"scenario": name, "files": files, "options": meta, "command_line": cargs}, "actual": f"run {i}: {status[:300]}",
+                                "expected": "both runs succeed", "how": "two full runs of the same project into the same output directory"}
+                    snaps.append(_snapshot(os.path.join(pd, outname)))
+            a, b = snaps
+            # the creation date differs between two runs: pages are compared with the date line removed - here only the set of files and the pages that have no date
+            diff = sorted(set(a) ^ set(b))
+            if diff:
+                return {"confirmed": True, "input": {"scenario": name, "files": files, "options": meta, "command_line": cargs}, "actual": {"files only in one run": diff[:6]},
+                        "expected": "the same set of output files from both runs", "how": "two full runs of the same project into the same output directory; second run sees the first run's output"}
+        finally:
+            shutil.rmtree(sb, ignore_errors=True)
+    return None
+
+
+def hashseed_pages(seeds=(0, 1, 2, 3, 4)):
+    """the rendered pages of one project under several PYTHONHASHSEED values, byte for byte (fixed creation date; graphs off: their SVG ids come from graphviz)"""
+    import shutil, tempfile
+    from bounded import site
+    files = project_files()
+    files["src/main.f90"] = files["src/main.f90"].replace("program driver\n", "program driver\n  use unknown_zeta\n  use unknown_alpha\n  use unknown_mid\n  use types\n  use par\n")
+    files["src/f0.f90"] = files["src/f0.f90"].replace("  implicit none\n", "  use types\n  use par\n  use unknown_b\n  use unknown_a\n  implicit none\n", 1)
+    meta = "src_dir: ./src\noutput_dir: ./doc\ngraph: false\nsearch: true\ncreation_date: fixed\n"
+    ref = None
+    for sd in seeds:
+        os.makedirs(realrun.TMPROOT, exist_ok=True)
+        sb = tempfile.mkdtemp(dir=realrun.TMPROOT)
+        try:
+            with site.site(files, meta, sandbox=sb, proj="p", hashseed=sd) as (pd, status):
+                if not status.startswith("ok"):
+                    return {"confirmed": True, "input": {"files": files, "options": meta, "PYTHONHASHSEED": sd}, "actual": status[:300], "expected": "ok", "how": "full run"}
+                snap = {}
+                for d, _, ff in os.walk(os.path.join(pd, "doc")):
+                    for f in ff:
+                        if f.endswith((".html", ".json", ".js")) and "tipuesearch" not in d:
+                            p = os.path.join(d, f)
+                            snap[os.path.relpath(p, os.path.join(pd, "doc"))] = open(p, encoding="utf-8", errors="replace").read().replace(sb, "<SANDBOX>")
+        finally:
+            shutil.rmtree(sb, ignore_errors=True)
+        if ref is None:
+            ref, refseed = snap, sd
+            continue
+        for k in sorted(set(ref) | set(snap)):
+            if ref.get(k) != snap.get(k):
+                a, b = ref.get(k) or "", snap.get(k) or ""
+                i = next((j for j in range(min(len(a), len(b))) if a[j] != b[j]), min(len(a), len(b)))
+                return {"confirmed": True, "input": {"files": files, "options": meta, "PYTHONHASHSEED": [refseed, sd]},
+                        "actual": {"file": k, f"seed {refseed}": a[max(0, i - 120):i + 120], f"seed {sd}": b[max(0, i - 120):i + 120]},
+                        "expected": "identical pages", "how": "two full runs of the same project with different PYTHONHASHSEED; written pages compared byte for byte"}
+    return None
